@@ -219,6 +219,10 @@ def run(ctx):
     from ..families import check_bigint_endianness
     check_bigint_endianness(ctx, P, 'C01.7-bigint-digit-order')
 
+    ctx.rule('C01.2-field-ranges', 'what the encoder may write the decoder accepts: fields with a restricted range are accepted for exactly the format\'s range (Bits of BIT_BINARY_EXT: 1..8)', floor=2)
+    from ..etf import check_field_ranges
+    check_field_ranges(ctx, 'C01.2-field-ranges')
+
     # ---------------- the order that keys decoded maps ------------------------------------------------------------------
     ctx.rule('C01.6-map-key-order', 'decoding collects map entries into a BTreeMap keyed by the term type (both decoders): "same key/value pairs" after a round trip needs an order under which two different keys '
              'never compare Equal - the comparator rules of C11/C12 re-run here', floor=60)
